@@ -25,7 +25,7 @@ def tier_params(tier: str) -> dict:
                     floor_len=3, crash_enum=["short:while_break", "short:for_break", "short:capt2", "short:if_chain",
                                              "short:class_super", "short:from_import"],
                     gen_o2=600, determinism_pairs=200, max_len=12, hunt_stmts=6000,
-                    hunt_runs=int(os.environ.get("VERIF_C10_HUNT", 3000)), pair_models=all_option_sets(), oo_len=6,
+                    hunt_runs=int(os.environ.get("VERIF_C10_HUNT", 3000)), pair_models=all_option_sets(), oo_len=6, del_variants=12,
                     triples=not os.environ.get("VERIF_C10_NOTRIPLES"))
     return dict(n_hash=8, replicas=2, n_hash311=0, histories=int(os.environ.get("VERIF_C10_HISTORIES", 9000)),
                 floor_len=3, crash_enum=["short:for_break"], gen_o2=240, determinism_pairs=32, max_len=12,
@@ -524,6 +524,16 @@ def run(repo: str, tier: str, seed: int, replay_dir=None, write_ev=True, jobs=No
                 for b in B_keys:
                     if a != b and a.startswith(("short:", "fail:")) and b.startswith(("short:", "fail:")):
                         pair_hist_311.append([{"op": "conv", "prog": a, "obj": None}, {"op": "conv", "prog": b, "obj": None}])
+        # (p, p minus one top-level statement), both orders: the two programs share every other
+        # definition verbatim
+        n_del = 0
+        for a in A_keys:
+            if a.startswith(("fail:", "big:")):
+                continue
+            for v in progs.deletion_variants(pool[a], P.get("del_variants", 6)):
+                pair_hist.append([{"op": "conv", "prog": a, "obj": None}, {"op": "conv", "src": v, "obj": None}])
+                pair_hist.append([{"op": "conv", "src": v, "obj": None}, {"op": "conv", "prog": a, "obj": None}])
+                n_del += 2
         pjobs = []
         CH = 150
         for i in range(0, len(pair_hist), CH):
@@ -536,7 +546,7 @@ def run(repo: str, tier: str, seed: int, replay_dir=None, write_ev=True, jobs=No
             for f in r["failures"]:
                 pair_fail.append((g, f))
             _merge(cov, r, states, transitions, desc_digests)
-        cov["phases"]["program_pairs"] = {"histories": len(pair_hist) + len(pair_hist_311), "of_which_env_then_conv": n_env,
+        cov["phases"]["program_pairs"] = {"histories": len(pair_hist) + len(pair_hist_311), "of_which_env_then_conv": n_env, "of_which_statement_deletion_pairs": n_del,
                                           "of_which_on_python_3_11": len(pair_hist_311), "ordered_pairs": len(A_keys) * len(B_keys) - len(B_keys),
                                           "option_models": ["none"] + ["|".join(m.get(n, "-") for n in OPTION_NAMES) for m in P["pair_models"]],
                                           "exhaustive_over": "all ordered pairs (A, B), A in pool incl. failing programs, B in pool",
